@@ -140,6 +140,13 @@ constexpr bool is_tainted = rlbox::detail::rlbox_is_tainted_v<std::remove_cv_t<s
     (void)verif_r_;                                                                                                \
     static_assert(verif::is_hint<decltype((__VA_ARGS__))>, "VERIF_NOT_A_HINT");                                     \
   }
+// result of a library routine that compares sandbox memory: must be exactly a tainted_int_hint
+#define VERIF_INT_HINT(...)                                                                                        \
+  {                                                                                                                \
+    auto&& verif_r_ = (__VA_ARGS__);                                                                               \
+    (void)verif_r_;                                                                                                \
+    static_assert(std::is_same_v<std::remove_cv_t<std::remove_reference_t<decltype((__VA_ARGS__))>>, rlbox::tainted_int_hint>, "VERIF_NOT_AN_INT_HINT"); \
+  }
 // result must still be tainted<...>
 #define VERIF_TAINTED(...)                                                                                         \
   {                                                                                                                \
